@@ -96,6 +96,14 @@ pub fn run(ctx: &mut Ctx) {
                      format!("assert_eq!(Date::try_from_days({n}).unwrap().day_of_week() as u32, {});", c.wd))
                 });
             }
+            // the public unchecked constructors, called with their precondition satisfied
+            let unchecked = guard(|| unsafe { (Date::from_ymd_unchecked(c.y, c.m, c.d).days(), Date::from_days_unchecked(n).extract()) });
+            acc.t(1);
+            if unchecked != Ok((n, (c.y, c.m, c.d))) {
+                acc.fail("C01:unchecked-constructors:wrong-for-valid-input", idx, || {
+                    (format!("Date::from_ymd_unchecked({}, {}, {}).days() / Date::from_days_unchecked({n}).extract()", c.y, c.m, c.d), format!("({n}, ({}, {}, {}))", c.y, c.m, c.d), format!("{unchecked:?}"), String::new())
+                });
+            }
             // is_valid
             if !Date::is_valid(c.y, c.m, c.d) {
                 acc.fail("C01:is_valid:rejects-real-date", idx, || {
@@ -281,4 +289,7 @@ pub fn run(ctx: &mut Ctx) {
         }
     });
     ctx.require(&r, &["accepted", "DateOutOfRange", "InvalidMonth", "InvalidDay", "InvalidDate"]);
+
+    // hidden per-thread state: two-step histories from the initial state
+    crate::history::two_step_histories(ctx, "C01", crate::history::Family::Accessors);
 }
